@@ -7,7 +7,7 @@ shape (projective.py:139 `ProjectiveObject.__init__`, :311 `shape`).
 import GT.Model.ND
 import Mathlib.Data.Matrix.Mul
 
-namespace GT
+namespace GT.Act
 open ND
 
 variable {K : Type} [Inhabited K]
@@ -26,4 +26,4 @@ def stackAt (a : ND K) (k p n : ℕ) (i : List ℕ) : Fin k → Matrix (Fin p) (
 /-- the scalar (unit of rank 0: a distance, a norm) at outer index `i` -/
 def scalarAt (a : ND K) (i : List ℕ) : K := a.get i
 
-end GT
+end GT.Act
